@@ -1007,6 +1007,80 @@ example : getConfigD true exMeta [{ exCfgReg with value := 0 }] = .ok [] := by d
 example : loadConfig exMeta [{ exCfgReg with value := 0 }] [(.top 0, .fields [(0, .num 4)])] = .ok [{ exCfgReg with value := 0x0004 }] := by
   decide
 
+/-! ## reset restores every bit-field, hidden or not (seeded change C11f) -/
+
+/-- `Register.get_reset_value` iterates `_bitfields` itself (every bit-field, hidden ones included), not a filtered view;
+    the model's `Reg.resetValue` folds over all `r.fields` with exactly the generated step (`gen_reset_value`) -/
+theorem gen_reset_iterates_all : RegArith.resetIterAll = true := by decide
+
+/-- **Reset restores every bit-field.**  In a well-formed register whose register-level reset value has no bits inside bit-field
+    `j`, `reset_value()` succeeds and bit-field `j` — named or hidden, the model does not distinguish — afterwards reads its own
+    reset value (through its processor: `(reset & mask) << shift`). -/
+theorem reset_restores_field (r : Reg) (j : Nat) (f : Field) (h : RegWF r) (hf : r.fields[j]? = some f)
+    (hb : r.resetValue < 2 ^ r.width)
+    (hraw : ∀ k, f.offset ≤ k → k < f.offset + f.width → r.resetRaw.testBit k = false) :
+    ∃ r', r.reset = .ok r' ∧ RegWF r' ∧ fieldGet r' f = .ok ((f.reset &&& mask f.width) <<< f.shift) := by
+  refine ⟨{ r with value := r.resetValue }, set_plain r r.resetValue true h.plain h.norev hb,
+    ⟨h.plain, h.norev, hb, h.fieldsIn, h.disjoint⟩, ?_⟩
+  rw [fieldGet_plain_upd r f r.resetValue h.plain h.norev, resetValue_slice r j f hf h.disjoint hraw]
+
+theorem step_layout_reset (rf rf' : RegFile) (op : Op) (h : FileWF rf) (hs : step rf op = .ok rf') :
+    FileWF rf' ∧ rf'.map (fun r => (r.width, r.fields, r.resetRaw)) = rf.map (fun r => (r.width, r.fields, r.resetRaw)) := by
+  have hf := step_forall2 rf rf' op hs
+  refine forall2_preserve (P := RegWF) (key := fun r => (r.width, r.fields, r.resetRaw)) hf h ?_
+  intro r r' hw hst
+  obtain ⟨x, hx, rfl⟩ := regStep_plain r r' hst hw.plain hw.norev hw.bound
+  exact ⟨⟨hw.plain, hw.norev, hx, hw.fieldsIn, hw.disjoint⟩, rfl⟩
+
+/-- no operation changes widths, bit-field layouts or reset values -/
+theorem run_layout_reset (rf : RegFile) (ops : List Op) (h : FileWF rf) :
+    (run rf ops).map (fun r => (r.width, r.fields, r.resetRaw)) = rf.map (fun r => (r.width, r.fields, r.resetRaw)) := by
+  induction ops generalizing rf with
+  | nil => rfl
+  | cons op ops ih =>
+    have e : run rf (op :: ops) = run (match step rf op with | .ok s' => s' | .error _ => rf) ops := by
+      simp [run]
+    rw [e]
+    cases hst : step rf op with
+    | error e => exact ih rf h
+    | ok s' =>
+      obtain ⟨h1, h2⟩ := step_layout_reset rf s' op h hst
+      exact (ih s' h1).trans h2
+
+/-- … in any register of the file, after any history -/
+theorem history_reset_restores (rf : RegFile) (pre : List Op) (i j : Nat) (r : Reg) (f : Field) (h : FileWF rf)
+    (hr : rf[i]? = some r) (hf : r.fields[j]? = some f) (hb : r.resetValue < 2 ^ r.width)
+    (hraw : ∀ k, f.offset ≤ k → k < f.offset + f.width → r.resetRaw.testBit k = false) :
+    ∃ r', (run rf (pre ++ [Op.resetReg i]))[i]? = some r' ∧ fieldGet r' f = .ok ((f.reset &&& mask f.width) <<< f.shift) := by
+  obtain ⟨hwf1, hl1⟩ := run_wf rf pre h
+  have hl2 : (run rf pre).map (fun r => (r.width, r.fields, r.resetRaw)) = rf.map (fun r => (r.width, r.fields, r.resetRaw)) := by
+    exact run_layout_reset rf pre h
+  obtain ⟨r1, hr1, hk1⟩ := getElem?_of_map_eq (key := fun r : Reg => (r.width, r.fields, r.resetRaw)) hl2 hr
+  have hw1 : r1.width = r.width := (Prod.mk.inj hk1).1
+  have hf1 : r1.fields = r.fields := (Prod.mk.inj (Prod.mk.inj hk1).2).1
+  have hx1 : r1.resetRaw = r.resetRaw := (Prod.mk.inj (Prod.mk.inj hk1).2).2
+  have wf1 : RegWF r1 := hwf1 r1 (List.mem_of_getElem? hr1)
+  have hrv : r1.resetValue = r.resetValue := by simp only [Reg.resetValue, hf1, hx1]
+  obtain ⟨r2, h1, _, h3⟩ := reset_restores_field r1 j f wf1 (hf1 ▸ hf) (by rw [hrv, hw1]; exact hb) (by rw [hx1]; exact hraw)
+  have hi : i < (run rf pre).length := by
+    rcases Nat.lt_or_ge i (run rf pre).length with h | h
+    · exact h
+    · rw [List.getElem?_eq_none h] at hr1; cases hr1
+  have hstep : step (run rf pre) (.resetReg i) = .ok ((run rf pre).set i r2) := by
+    simp [step, updAt, hr1, h1]
+  have e : run rf (pre ++ [Op.resetReg i]) = (run rf pre).set i r2 := by
+    simp only [run, List.foldl_append, List.foldl_cons, List.foldl_nil]
+    have := hstep
+    simp only [run] at this
+    rw [this]
+  rw [e]
+  exact ⟨r2, by simp [hi], h3⟩
+
+/-- non-vacuity: bit-field 1 (hidden in `exMeta`) has reset value 5; after a whole-register write and a reset it reads 5 -/
+example : (({ exCfgReg with fields := [{ offset := 0, width := 4 }, { offset := 4, width := 4, reset := 5 }, { offset := 8, width := 8 }] } : Reg).reset).toOption.map
+    (fun r => fieldGet r { offset := 4, width := 4, reset := 5 }) = some (.ok 5) := by decide
+
+
 /-! ## look-up by name, alias and uid -/
 
 /-- `find_reg` answers only with a register that carries the name (as name, alias or uid), members of groups only on request;
